@@ -385,6 +385,49 @@ def correspondence(ctx, form, ev):
     ctx.count("model:answered")
 
 
+# ------------------------------------------------------------------ element names of the primary instance (C01Tree)
+
+_TAG_CACHE: dict = {}
+
+
+def model_is_xml_tag(ctx, s: str) -> bool:
+    if s not in _TAG_CACHE:
+        _TAG_CACHE[s] = bool(ctx.driver.call("form.is_xml_tag", s=s))
+    return _TAG_CACHE[s]
+
+
+def has_loop(form) -> bool:
+    return any("loop" in str(r.get("type", "")).lower() for r in form.get("survey", []) if isinstance(r, dict))
+
+
+def tree_names(ctx, form, ev):
+    """The conclusions of `tree_names_valid` / `noBr_of_isXmlTag` (Pyxv.Proofs.C01Tree) evaluated on the implementation's
+    own output: every element name below the primary instance root is accepted by the model's `isXmlTag`, and one
+    that contains `]` contains the typo literal.  (`loop` sections generate element names from choice names: outside
+    the row pipeline the theorem is about.)"""
+    t = ev["verdict"][False].get("tree") if ev.get("verdict") else None
+    dp = deep_parts(t) if t else None
+    if dp is None or has_loop(form):
+        ctx.count("tree-names:skipped")
+        return
+    names = set()
+
+    def walk(ks):
+        for k in ks:
+            if "t" in k:
+                names.add(k["t"])
+                walk(k.get("k", []))
+
+    walk(dp["rootKids"])
+    for n in sorted(names):
+        if not model_is_xml_tag(ctx, n):
+            ctx.mismatch("element name of the primary instance is not an is_xml_tag name (tree_names_valid)", form, n, "isXmlTag = false")
+        elif "]" in n and c01_gen.TYPO_LIT not in n:
+            ctx.mismatch("element name with `]` outside the typo literal (noBr_of_isXmlTag)", form, n, "no `]`")
+    ctx.count("tree-names:checked")
+    ctx.dist["tree-names:names"] = ctx.dist.get("tree-names:names", 0) + len(names)
+
+
 # ------------------------------------------------------------------ one case
 
 
@@ -435,6 +478,7 @@ def form_case(ctx, form, via="dict", fallback="data", stream="general"):
         attribute(ctx, form, ev, via, fallback)
     if ev["verdict"]:
         correspondence(ctx, form, ev)
+        tree_names(ctx, form, ev)
     ctx.record(case, True)
 
 
